@@ -525,13 +525,18 @@ func (fr *Frame) computeRenames() {
 			cand := ""
 			n := 0
 			for cn, ct := range cur {
-				if _, wasThere := old[cn]; !wasThere && ct == ot {
+				// an address-taken local appears under its own type or as a pointer to it, depending on which of its
+				// SSA values the environment holds at that point: compare the types without the leading "*"
+				if _, wasThere := old[cn]; !wasThere && strings.TrimPrefix(ct, "*") == strings.TrimPrefix(ot, "*") {
 					cand = cn
 					n++
 				}
 			}
 			if n == 1 {
 				fr.renames[on] = cand
+			}
+			if os.Getenv("GOVC_DEBUG_RENAMES") != "" {
+				fmt.Fprintf(os.Stderr, "rename %s site=%s %s(%s) -> n=%d %s cur=%v\n", fr.fn.Name(), site, on, ot, n, cand, cur)
 			}
 		}
 	}
